@@ -8,7 +8,7 @@ import (
 
 func init() {
 	register("C39", []string{".", "./objstorage/...", "./internal/manifest", "./valsep"}, runC39)
-	propExplain["C39"] = "Decides ownership/ordering clauses of C39: objects are removed from the provider only by the obsolete-file deleter, the ingest's own cleanup of files it linked, and the copy-compaction's delete-on-exit; files are enqueued for deletion only by deleteObsoleteFiles, which does nothing while deletions are disabled and obsoletes WALs only below the durable minUnflushedLogNum; the obsolete lists are written only by their owners; files become obsolete only through the version-refcount callback, the flushable's last-reader unref, and the failure arms that dispose of their own outputs; zombie sets are updated before the new version is installed; every read-state/version reference is released or owned (C04.P1–P3); a compaction output object that was created is handed to the caller / result on every later exit (so failure arms can dispose of it). Does not decide refcount arithmetic at run time."
+	propExplain["C39"] = "Decides ownership/ordering clauses of C39: objects are removed from the provider only by the obsolete-file deleter, the ingest's own cleanup of files it linked, and the copy-compaction's delete-on-exit; files are enqueued for deletion only by deleteObsoleteFiles, which does nothing while deletions are disabled and obsoletes WALs only below the durable minUnflushedLogNum; the obsolete lists are written only by their owners; files become obsolete only through the version-refcount callback, the flushable's last-reader unref, and the failure arms that dispose of their own outputs; zombie sets are updated before the new version is installed; every read-state/version reference is released or owned (C04.P1–P3); a compaction output object that was created is handed to the caller / result on every later exit (so failure arms can dispose of it). (A1) at Open the list of replayed flushable ingests handed to scanObsoleteFiles accumulates over all replayed WALs (every assignment in the loop appends to the list so far). (P3) references to file-cache values are released or handed over at every findOrCreateTable/findOrCreateBlob call site. Does not decide refcount arithmetic at run time."
 	propTechnique["C39"] = "who-may-call/write (module-wide), SSA ordering and guard dataflow, resource pairing, created-object disposal obligation"
 }
 
@@ -184,6 +184,7 @@ func runC39(c *Ctx) {
 	}
 	runC39G3(c)
 	runC39P3(c)
+	runC39A1(c)
 	// shared pairing rules
 	runC04Pairing(c)
 }
@@ -290,5 +291,70 @@ func runC39P3(c *Ctx) {
 	})
 	if n < 4 {
 		c.Unresolved("C39.P3", "fewer than 4 findOrCreateTable/findOrCreateBlob call sites found")
+	}
+}
+
+// runC39A1: at Open the files of flushable ingests replayed from the WALs are not yet in any
+// version; scanObsoleteFiles spares exactly the ones in the list it is given. That list is an
+// accumulator over ALL replayed WALs: every value that flows into it inside the replay loop is
+// `append(<the list so far>, …)` (or the initial empty list) — an assignment that replaces the
+// list makes the tables of every earlier pending ingest look like orphans, and they are deleted
+// while the recovered state still needs them.
+func runC39A1(c *Ctx) {
+	fn := c.Fn("C39.A1", "p.Open")
+	if fn == nil {
+		return
+	}
+	n := 0
+	for _, in := range instrs(fn, CallTo("p.(*DB).scanObsoleteFiles")) {
+		args := in.(*ssa.Call).Common().Args
+		list := args[len(args)-1]
+		web := map[ssa.Value]bool{}
+		var leaves []ssa.Value
+		var walk func(v ssa.Value)
+		walk = func(v ssa.Value) {
+			if web[v] {
+				return
+			}
+			if phi, ok := v.(*ssa.Phi); ok {
+				web[v] = true
+				for _, e := range phi.Edges {
+					walk(e)
+				}
+				return
+			}
+			leaves = append(leaves, v)
+		}
+		walk(list)
+		if len(web) == 0 {
+			c.Unresolved("C39.A1", "the flushable-ingest list passed to scanObsoleteFiles is not a loop-carried variable of Open")
+			continue
+		}
+		for _, lf := range leaves {
+			n++
+			ok := false
+			what := pathOf(lf)
+			if isNilConst(lf) {
+				ok = true
+			} else if call, isCall := lf.(*ssa.Call); isCall {
+				if b, isB := call.Common().Value.(*ssa.Builtin); isB && b.Name() == "append" && len(call.Common().Args) > 0 && web[call.Common().Args[0]] {
+					ok = true
+				}
+			}
+			pos := lf.Pos()
+			if !pos.IsValid() {
+				if ex, isEx := lf.(*ssa.Extract); isEx {
+					pos = ex.Tuple.Pos()
+				}
+			}
+			if !pos.IsValid() {
+				pos = in.Pos()
+			}
+			c.Ob("C39.A1", fn, "the list of replayed flushable ingests accumulates over all WALs", c.P.Pos(pos), ok,
+				map[bool]string{true: "", false: "the list is assigned " + what + ", which is not append(<the list so far>, …): ingests replayed from earlier WALs are forgotten and scanObsoleteFiles deletes their tables"}[ok])
+		}
+	}
+	if n < 2 {
+		c.Unresolved("C39.A1", "scanObsoleteFiles call / accumulator not found in Open")
 	}
 }
